@@ -154,31 +154,38 @@ func fromProgram(q *interpgen.Program) *progSpec {
 	return p
 }
 
+// transaction: the transaction of a job over the given script objects (salt makes it a different one), the index of
+// the input under test and the output it spends.
+func (p *progSpec) transaction(lock, unlock *bscript.Script, salt uint64, alloc allocFn) (*bt.Tx, int, *bt.Output) {
+	tx := bt.NewTx()
+	tx.Version, tx.LockTime = p.Version, p.LockTime
+	for k := 0; k < p.ExtraIn; k++ {
+		other := &bt.Input{PreviousTxOutIndex: uint32(k + 1), SequenceNumber: 0xfffffffe, UnlockingScript: alloc([]byte{0x51, byte(0x52 + k)})}
+		_ = other.PreviousTxIDAdd(bytes.Repeat([]byte{byte(k + 1)}, 32))
+		tx.Inputs = append(tx.Inputs, other)
+	}
+	id := make([]byte, 32)
+	binary.LittleEndian.PutUint64(id, salt)
+	id[31] = 0xc1
+	in := &bt.Input{PreviousTxOutIndex: uint32(salt % 4), SequenceNumber: p.Seq, UnlockingScript: unlock}
+	_ = in.PreviousTxIDAdd(id)
+	tx.Inputs = append(tx.Inputs, in)
+	tx.Outputs = append(tx.Outputs, &bt.Output{Satoshis: 1 + salt%977, LockingScript: alloc([]byte{0x51})})
+	for k := 0; k < p.ExOut; k++ {
+		tx.Outputs = append(tx.Outputs, &bt.Output{Satoshis: uint64(1000 + k), LockingScript: alloc([]byte{0x76, 0xa9, byte(k)})})
+	}
+	return tx, p.ExtraIn, &bt.Output{Satoshis: 1000, LockingScript: lock}
+}
+
 // build: a job over the given script objects; salt makes the transaction a different one.
 func (p *progSpec) build(lock, unlock *bscript.Script, salt uint64, alloc allocFn) job {
 	var opts []interpreter.ExecutionOptionFunc
 	if p.Mode != 0 {
-		tx := bt.NewTx()
-		tx.Version, tx.LockTime = p.Version, p.LockTime
-		for k := 0; k < p.ExtraIn; k++ {
-			other := &bt.Input{PreviousTxOutIndex: uint32(k + 1), SequenceNumber: 0xfffffffe, UnlockingScript: alloc([]byte{0x51, byte(0x52 + k)})}
-			_ = other.PreviousTxIDAdd(bytes.Repeat([]byte{byte(k + 1)}, 32))
-			tx.Inputs = append(tx.Inputs, other)
-		}
-		id := make([]byte, 32)
-		binary.LittleEndian.PutUint64(id, salt)
-		id[31] = 0xc1
-		in := &bt.Input{PreviousTxOutIndex: uint32(salt % 4), SequenceNumber: p.Seq, UnlockingScript: unlock}
-		_ = in.PreviousTxIDAdd(id)
-		tx.Inputs = append(tx.Inputs, in)
-		tx.Outputs = append(tx.Outputs, &bt.Output{Satoshis: 1 + salt%977, LockingScript: alloc([]byte{0x51})})
-		for k := 0; k < p.ExOut; k++ {
-			tx.Outputs = append(tx.Outputs, &bt.Output{Satoshis: uint64(1000 + k), LockingScript: alloc([]byte{0x76, 0xa9, byte(k)})})
-		}
+		tx, idx, prev := p.transaction(lock, unlock, salt, alloc)
 		if p.Mode == 1 {
-			opts = append(opts, interpreter.WithTx(tx, p.ExtraIn, &bt.Output{Satoshis: 1000, LockingScript: lock}))
+			opts = append(opts, interpreter.WithTx(tx, idx, prev))
 		} else {
-			opts = append(opts, interpreter.WithTx(tx, p.ExtraIn, nil), interpreter.WithScripts(lock, unlock))
+			opts = append(opts, interpreter.WithTx(tx, idx, nil), interpreter.WithScripts(lock, unlock))
 		}
 	} else {
 		opts = append(opts, interpreter.WithScripts(lock, unlock))
@@ -669,9 +676,9 @@ func signedTailJobs(r *common.Rand, sw *sharedWallet, alloc allocFn) []job {
 	}
 	tx.Inputs[0].UnlockingScript = alloc(*us)
 	prev := &bt.Output{Satoshis: sats, LockingScript: alloc(lockB)}
-	return []job{{kind: kind, tx: tx, prev: prev, opts: func() []interpreter.ExecutionOptionFunc {
-		return []interpreter.ExecutionOptionFunc{interpreter.WithTx(tx, 0, prev), interpreter.WithAfterGenesis(), interpreter.WithForkID()}
-	}}}
+	j := signedJob(kind, tx, prev, sw)
+	j.more = nil
+	return []job{j}
 }
 
 // sharedMultisigJobs: a bare 2-of-3 output script object named by several transactions; the keys are operands that
@@ -703,9 +710,9 @@ func sharedMultisigJobs(r *common.Rand, sw *sharedWallet, lock *bscript.Script, 
 	}
 	tx.Inputs[0].UnlockingScript = alloc(unlock)
 	prev := &bt.Output{Satoshis: sats, LockingScript: lock}
-	return []job{{kind: kind, tx: tx, prev: prev, opts: func() []interpreter.ExecutionOptionFunc {
-		return []interpreter.ExecutionOptionFunc{interpreter.WithTx(tx, 0, prev), interpreter.WithAfterGenesis(), interpreter.WithForkID()}
-	}}}
+	j := signedJob(kind, tx, prev, sw)
+	j.more = nil
+	return []job{j}
 }
 
 func multisigLockBytes(keys []*bec.PrivateKey) []byte {
@@ -949,7 +956,12 @@ func hammerRound(seed uint64, index int, pl *pool, budget time.Duration) EngineR
 		p := opReturnTail(r)
 		jobs = append(jobs, p.build(heapScript(p.Lock), heapScript(p.Unlock), r.U64(), heapScript))
 	}
-	out := EngineRound{Seed: seed, Goroutines: g, Procs: procs, Jobs: len(jobs), Index: index, Shared: len(shared.objs)}
+	// option values built once and shared by the jobs that follow (and by the goroutines that own them)
+	bank := newOptBank()
+	for _, u := range pl.flagTwinUnits(r, index, 16, bank, shared, false) {
+		jobs = append(jobs, u...)
+	}
+	out := EngineRound{Seed: seed, Goroutines: g, Procs: procs, Jobs: len(jobs), Index: index, Shared: len(shared.objs), OptionValues: bank.sharedValues()}
 	kinds := map[string]bool{}
 	for _, j := range jobs {
 		kinds[j.kind] = true
@@ -961,7 +973,7 @@ func hammerRound(seed uint64, index int, pl *pool, budget time.Duration) EngineR
 	seqEngine := interpreter.NewEngine()
 	out.Sequential = make([]bool, len(jobs))
 	for i, j := range jobs {
-		out.Sequential[i] = verdict(seqEngine, j)
+		out.Sequential[i] = seqVerdict(seqEngine, j)
 	}
 	out.Concurrent = append([]bool{}, out.Sequential...)
 	engine := interpreter.NewEngine()
